@@ -1084,6 +1084,11 @@ class StrategyBase(Node):
 
         The result is a MultiIndex DataFrame.
         """
+        # nothing to report if no security was ever added to the tree
+        if len(self.securities) == 0:
+            idx = pd.MultiIndex.from_arrays([[], []], names=["Date", "Security"])
+            return pd.DataFrame({"price": [], "quantity": []}, index=idx)
+
         # get prices for each security in the strategy & create unstacked
         # series
         prc = pd.DataFrame({x.name: x.prices for x in self.securities}).unstack()
